@@ -239,10 +239,8 @@ func c19Seq(c *engine.Ctx, hist []int, oi int) {
 		model = append(model, ops[h].expect...)
 	}
 	before := make([]string, len(cont))
-	ptrs := make([]message.IKEPayload, len(cont))
 	for i, p := range cont {
 		before[i] = engine.Dump(p)
-		ptrs[i] = p
 	}
 	op := ops[oi]
 	var err error
@@ -260,7 +258,7 @@ func c19Seq(c *engine.Ctx, hist []int, oi int) {
 		return
 	}
 	for i := range before {
-		if cont[i] != ptrs[i] || engine.Dump(cont[i]) != before[i] {
+		if engine.Dump(cont[i]) != before[i] {
 			c.Violate("earlier-payload-changed/"+op.name, fmt.Sprintf("%s changed payload %d of the container", op.name, i), cs)
 			return
 		}
